@@ -1,6 +1,7 @@
 package props
 
 import (
+	"math"
 	"testing"
 
 	"go.mongodb.org/mongo-driver/bson"
@@ -29,7 +30,13 @@ func writeWeights(extra map[string]int) map[string]int {
 
 var profFailing = &hProfile{name: "failing", cfg: gen.Core, weights: writeWeights(map[string]int{"updateMany": 12, "insertMany": 9, "bulkWrite": 9, "createIndex": 7, "txnAborted": 2}), nss: allNS, docGen: defaultDocGen, idPool: simpleIDs, tinyVals: collideVals, storeFail: 5}
 
-var profCollide = &hProfile{name: "collide", cfg: gen.Core, weights: writeWeights(map[string]int{"createIndex": 9, "updateMany": 10, "replaceOne": 7}), nss: []string{"d1.c1", "d1.c1", "d1.c2"}, docGen: defaultDocGen, idPool: baseIDs, tinyVals: collideVals}
+// collideFracVals adds fractions to collideVals: the double 0.1 and the
+// decimal 0.1 are different numbers, 2^-40 as a double and written out as a
+// decimal are the same number (and so are both spellings of 0.5).
+var collideFracVals = append(append(append([]interface{}{}, collideVals[:4]...),
+	float64(0.1), gen.D128("0.1"), math.Pow(2, -40), gen.D128("9.094947017729282379150390625E-13"), float64(0.5), gen.D128("0.5")), collideVals[4:]...)
+
+var profCollide = &hProfile{name: "collide", cfg: gen.Core, weights: writeWeights(map[string]int{"createIndex": 9, "updateMany": 10, "replaceOne": 7}), nss: []string{"d1.c1", "d1.c1", "d1.c2"}, docGen: defaultDocGen, idPool: baseIDs, tinyVals: collideFracVals}
 
 var profIndex = &hProfile{name: "index", cfg: gen.Core, weights: writeWeights(map[string]int{"createIndex": 10, "createIndexes": 3, "dropIndex": 3, "dropIndexKey": 2, "dropIndexes": 2, "updateMany": 9, "txnAborted": 1}), nss: []string{"d1.c1", "d1.c1", "d1.c2"}, docGen: defaultDocGen, idPool: simpleIDs, tinyVals: collideVals, storeFail: 4}
 
